@@ -24,6 +24,8 @@ if os.path.realpath(REPO) != '/repo':
         except OSError:
             pass
 os.environ['VERIF_COQ'] = COQ
+# evidence / replays of a run against a scratch copy never overwrite those of /repo itself
+OUT = VERIF if os.path.realpath(REPO) == '/repo' else COQ
 sys.path.insert(0, os.path.join(VERIF, 'tools'))
 sys.path.insert(0, os.path.join(VERIF, 'harness'))
 
@@ -314,7 +316,7 @@ class Check:
         self.extra = {}
         self.checker_cmd = f'./check {pid} --{tier}'
         self.known = [k for k in load_known() if k.get('property') == pid and k.get('status') == 'known']
-        rd = os.path.join(VERIF, 'replays')
+        rd = os.path.join(OUT, 'replays')
         if os.path.isdir(rd):
             for f in os.listdir(rd):
                 if f.startswith(pid + '-'):
@@ -355,7 +357,7 @@ class Check:
                 print(f'KNOWN-FINDING: property={self.pid} {k.get("what", what)}')
             return False
         h = hashlib.blake2b((self.pid + key).encode(), digest_size=6).hexdigest()
-        path = os.path.join(VERIF, 'replays', f'{self.pid}-{h}.json')
+        path = os.path.join(OUT, 'replays', f'{self.pid}-{h}.json')
         os.makedirs(os.path.dirname(path), exist_ok=True)
         with open(path, 'w') as f:
             json.dump({'property': self.pid, 'kind': 'counterexample', 'key': key, 'what': what, 'input': input,
@@ -376,7 +378,7 @@ class Check:
         if self.broken and not have_concrete:
             name, detail, cases = self.broken[0]
             h = hashlib.blake2b((self.pid + name).encode(), digest_size=6).hexdigest()
-            path = os.path.join(VERIF, 'replays', f'{self.pid}-unchecked-{h}.json')
+            path = os.path.join(OUT, 'replays', f'{self.pid}-unchecked-{h}.json')
             os.makedirs(os.path.dirname(path), exist_ok=True)
             with open(path, 'w') as f:
                 json.dump({'property': self.pid, 'kind': 'unchecked-obligation',
@@ -403,8 +405,8 @@ class Check:
         ev = {'property_id': self.pid, 'tier': self.tier, 'seed': self.seed, 'level': self.level,
               'coverage': cov, 'assumptions': self.assumptions, 'wall_s': round(time.time() - self.t0, 2),
               'violations': len(self.violations)}
-        os.makedirs(os.path.join(VERIF, 'evidence'), exist_ok=True)
-        with open(os.path.join(VERIF, 'evidence', self.pid + '.json'), 'w') as f:
+        os.makedirs(os.path.join(OUT, 'evidence'), exist_ok=True)
+        with open(os.path.join(OUT, 'evidence', self.pid + '.json'), 'w') as f:
             json.dump(ev, f, indent=1, default=repr)
         for path, no_input in self.violations[:3]:
             print(f'VIOLATION property={self.pid} replay={path}' + (' no-failing-input-found' if no_input else ''))
